@@ -68,9 +68,16 @@ pub fn make_archive_with(ctx: &mut Ctx, max_len: usize, big: bool, force_writer:
     // single write to a tokio File accepts (2 MiB): fixed size just above 2 MiB, random bytes
     if !big && gen::chance(1, 150) {
         let n = (2 << 20) + 1 + gen::draw(1 << 19) as usize;
-        spec.cfg = gen::Cfg::fixed(n);
         spec.comp = *gen::t(|t| t.pick(&[gen::Comp::None, gen::Comp::None, gen::Comp::Zstd(1)]));
-        let len = n * (1 + gen::draw(2) as usize) + gen::draw(n as u32) as usize;
+        let len = if gen::chance(1, 2) {
+            spec.cfg = gen::Cfg::fixed(n);
+            n * (1 + gen::draw(2) as usize) + gen::draw(n as u32) as usize
+        } else {
+            // rolling hash with an average of 1 MiB and no minimum: chunk sizes from a few bytes
+            // to several MiB side by side
+            spec.cfg = gen::Cfg { algo: if gen::chance(1, 2) { gen::Algo::RollSum } else { gen::Algo::BuzHash }, window: 32, min: 0, max: 4 << 20, bits: 19, avg: 1 << 20 };
+            (3 << 20) + gen::draw(3 << 20) as usize
+        };
         sspec = gen::SourceSpec { kind: "random", len, seed: gen::t(|t| t.seed64()), param: 0 };
         data = gen::expand(&sspec);
         simkit::count("probe:raw-chunks-above-2MiB");
@@ -108,7 +115,16 @@ pub fn compress_with(spec: &scen::CompressSpec, source: &Arc<Vec<u8>>, writer: u
         0 => {
             scen::put_file("src.bin", source);
             scen::set_stdin(None);
+            // one input in twelve is a block device: its stat size is 0, its content is what reading it yields
+            let dev = !source.is_empty() && gen::chance(1, 12);
+            if dev {
+                crate::sys::with(|s| s.path_mut("src.bin").fake_blockdev = true);
+                simkit::count("probe:compress-input-is-a-block-device");
+            }
             let r = scen::run(&scen::compress_args(spec, Some("src.bin"), "a.cba", force));
+            if dev {
+                crate::sys::with(|s| s.path_mut("src.bin").fake_blockdev = false);
+            }
             ("cli-file", r.outcome, scen::get_file("a.cba").unwrap_or_default())
         }
         1 => {
